@@ -1,9 +1,9 @@
 package main
 
 import (
-	"go/types"
-	"go/token"
 	"fmt"
+	"go/token"
+	"go/types"
 
 	"golang.org/x/tools/go/ssa"
 )
